@@ -103,6 +103,10 @@ class DiameterAssociation(object):
         #: Set by a stop requested before the connection is Open (the state
         #: machine acts upon it as soon as it gets there).
         self.stop_requested = False
+
+        #: True until start() has set up (or failed to set up) the transport
+        #: and its threads: the state machine is already ticking by then.
+        self.is_starting = True
         self.transport = None
         self.error_has_raised = False
         self._stop_threads = False
@@ -142,6 +146,13 @@ class DiameterAssociation(object):
 
 
     def start(self) -> None:
+        try:
+            self._start()
+        finally:
+            self.is_starting = False
+
+
+    def _start(self) -> None:
         self._stop_threads = False
 
         if self.connection.mode == DIAMETER_AGENT_CLIENT_MODE:
